@@ -24,9 +24,23 @@ pub fn main_with(defs: Vec<PropDef>) -> ! {
         usage()
     }
     if !worker {
-        std::process::exit(supervise(&args));
+        finish(supervise(&args));
     }
-    std::process::exit(work(&args, defs));
+    finish(work(&args, defs));
+}
+
+static EXIT_HOOK: std::sync::OnceLock<fn()> = std::sync::OnceLock::new();
+
+/// register clean-up that must run before the process exits (the engines' scratch directories)
+pub fn set_exit_hook(f: fn()) {
+    let _ = EXIT_HOOK.set(f);
+}
+
+fn finish(code: i32) -> ! {
+    if let Some(h) = EXIT_HOOK.get() {
+        h();
+    }
+    std::process::exit(code)
 }
 
 fn seed() -> u64 {
